@@ -99,8 +99,17 @@ JudgeModel ==
                 /\ LET t == LineDiff(a, b) IN IF t # 0 THEN V("C04.lines", t, LineField(a[t], b[t])) ELSE TRUE
                 /\ LET t == LangDiff(a, b) IN IF t # 0 THEN V("C04.lang", t, "language") ELSE TRUE
 
+\* informational: does the machine (which also models the known defects of the secondary entry points) predict
+\* exactly what was observed through this entry point?
+PredAgrees ==
+   LET p == Run(IF R.entry = "file" THEN "feature" ELSE R.entry, R.lines) IN
+   IF p.res.k = "crash" THEN ~R.ok /\ R.exc = p.res.why
+   ELSE IF p.res.k = "err" THEN ~R.ok /\ R.exc = "ParserError"
+   ELSE R.ok /\ (IF R.entry = "tags" THEN p.tags = R.tags ELSE p.elems = R.elems)
+
 Next == /\ i <= Len(Rows)
         /\ IF R.entry = "tags" THEN JudgeTags ELSE JudgeModel
+        /\ IF PredAgrees THEN TRUE ELSE PrintT(<<"DIV", R.id>>)
         /\ i' = i + 1
 Spec == Init /\ [][Next]_i
 Done == PrintT(<<"DONE", Len(Rows), TLCGet("stats").diameter>>)
